@@ -51,8 +51,18 @@ def _file_opener(f, mode='r', binary=False, encoding=None):
     else:
         # not a string - we assume a file-like object
         if not binary and _is_binary_handle(f):
-            f = _NonClosingTextIOWrapper(f, encoding=encoding)
-        yield f
+            ft = _NonClosingTextIOWrapper(f, encoding=encoding)
+            try:
+                yield ft
+            finally:
+                # The text layer reads ahead in chunks, leave the binary handle
+                # at the position where the reader stopped
+                try:
+                    ft.seek(ft.tell())
+                except (OSError, ValueError):
+                    pass
+        else:
+            yield f
 
 
 class _NonClosingTextIOWrapper(io.TextIOWrapper):
